@@ -1,7 +1,7 @@
 (* Correspondence cases for C06 (MAC-command part): model vs implementation,
    and the table-driven specification evaluated on what the implementation did. *)
 From Coq Require Import List NArith ZArith Bool.
-From LW Require Export Base.Outcome Base.Bytes Mac.Commands Mac.Spec Mac.Stream.
+From LW Require Export Base.Outcome Base.Bytes Mac.Commands Mac.Spec Mac.Stream Frame.Model Frame.WireSpec.
 From LWGen Require Import RegistryGen.
 Import ListNotations.
 Open Scope N_scope.
@@ -9,7 +9,13 @@ Open Scope N_scope.
 Inductive case :=
 | CEnc (v : macpl) (o : outcome (list N))
 | CDec (k : kind) (bs : list N) (o : outcome macpl)
-| CReg (up : bool) (cid : N) (o : option (Z * kind)).
+| CReg (up : bool) (cid : N) (o : option (Z * kind))
+(* join / rejoin / join-accept payload (with CFList) MarshalBinary *)
+| CFrameEnc (p : payload) (o : outcome (list N))
+(* single-octet headers: byte, decoded fields as observed *)
+| CMhdr (b : N) (o_mtype o_major : N) (o_re : N)
+| CFctrl (b : N) (o : fctrl) (o_re : outcome N)
+| CDlSettings (b : N) (o_optneg : bool) (o_rx2 o_rx1 : N) (o_re : outcome N).
 
 Definition oeqb := outcome_eqb bytes_eqb.
 Definition peqb := outcome_eqb macpl_eqb.
@@ -35,6 +41,19 @@ Definition check (c : case) : N :=
           | None, None => true
           | _, _ => false
           end)
+  | CFrameEnc p o =>
+    code (oeqb (payload_marshal p) o)
+         (match frame_spec_bytes p with Some b => oeqb o (Ok b) | None => true end)
+  | CMhdr b mt mj re =>
+    code ((N.shiftr b 5 =? mt) && (N.land b 3 =? mj) && (mhdr_marshal mt mj =? re))
+         (bytes_eqb [mj; mt] (unpack L_MHDR b) && (re =? spec_mhdr mt mj))
+  | CFctrl b c re =>
+    code (fctrl_eqb (fctrl_unmarshal b) c && outcome_eqb N.eqb (fctrl_marshal c) re)
+         (fctrl_eqb c (spec_fctrl_decode b) && outcome_eqb N.eqb re (Ok (spec_fctrl c)))
+  | CDlSettings b o rx2 rx1 re =>
+    code (let '(o', a, c) := dec_dlsettings b in Bool.eqb o o' && (a =? rx2) && (c =? rx1) && outcome_eqb N.eqb (enc_dlsettings o rx2 rx1) re)
+         (let l := unpack L_DLSettings b in
+          Bool.eqb o (f2b (nth 2 l 0)) && (rx2 =? nth 0 l 0) && (rx1 =? nth 1 l 0) && outcome_eqb N.eqb re (Ok (spec_dlsettings o rx2 rx1)))
   end.
 
 Definition run_cases := run_with check.
